@@ -20,7 +20,7 @@ func init() {
 }
 
 func c17Jobs(tier string, seed int64) []string {
-	jobs := []string{"str:0", "str:1", "str:2", "list:1", "key:1", "val:1", "two:1", "lazy:1", "nest:1", "mixed:0", "reps:1", "bins:1", "funcmap:1"}
+	jobs := []string{"str:0", "str:1", "str:2", "list:1", "key:1", "val:1", "two:1", "lazy:1", "nest:1", "mixed:0", "nums:0", "reps:1", "bins:1", "funcmap:1"}
 	if tier == "thorough" {
 		jobs = append(jobs, "str:3", "list:2", "key:2", "val:2", "nest:2", "deep:1")
 	}
@@ -180,6 +180,24 @@ func c17Run(job string) {
 		want = xa(xstr("1"), xstr("-7"), xstr("2.5"), xstr("1e+30"), xstr("+Inf"), xstr("true"), xstr("false"), xstr(""),
 			xa(), eo, xa(xa()), &xnode{kind: 'o', keys: [][]rune{[]rune("a")}, items: []*xnode{eo}},
 			xstr(`a\b`), xstr(`"q"`), xstr("tab\tnl\nret\r"))
+	case "nums":
+		// scalars are written as the JSON string of their own string form, whatever their size
+		f := mustGen(fg, `[0, 999999, 1000000, 1234567, -1000000, 123456789012, 9007199254740992, 9007199254740993, 9223372036854775807, -9223372036854775807, 1000000.0, 1000000.5, 0.1, 1e21, 1e-7, -0.0, 2^62, int(1e15), float(3)]`)
+		r := eval(f)
+		sym.Assert(r.ok(), "build-nums")
+		if !r.ok() {
+			return
+		}
+		v = r.v
+		items, _ := r.v.(*value.List).ToSlice(emptyStack())
+		var xs []*xnode
+		for _, it := range items {
+			str, err := it.ToString(emptyStack())
+			sym.Assert(err == nil, "scalar-has-a-string-form")
+			xs = append(xs, xstr(str))
+		}
+		want = xa(xa(xs...), &xnode{kind: 'o', keys: [][]rune{[]rune("n")}, items: []*xnode{xs[3]}})
+		v = value.NewList(r.v, value.NewMap(value.RealMap{"n": items[3]}))
 	case "reps":
 		// maps in other representations: merged, replaced, evaluated, mapped
 		rs, sv := S("r")
